@@ -44,8 +44,9 @@ type step struct {
 	Target int       `json:"target"`         // instance re-entered by the host (non-leaf steps)
 	Via    bool      `json:"via,omitempty"`  // re-enter A.via_peer (A -> B.nest by a wasm import) instead of nest
 	Catch  bool      `json:"catch,omitempty"`
-	ThenHP int       `json:"thenhp"` // >=0: after the nested call (ok or caught) the host panics with this kind
-	Dir    int       `json:"dir"`    // >=0: the host returns a directive making the calling guest frame trap with this kind
+	Wrap   int       `json:"wrap,omitempty"` // how a propagated failure is made into the panic value (wrapNone..wrapJoin)
+	ThenHP int       `json:"thenhp"`         // >=0: after the nested call (ok or caught) the host panics with this kind
+	Dir    int       `json:"dir"`            // >=0: the host returns a directive making the calling guest frame trap with this kind
 }
 
 type op struct {
@@ -166,6 +167,8 @@ func (o *op) desc() string {
 			}
 			if s.Catch {
 				sb.WriteString("/catch")
+			} else if s.Wrap != wrapNone {
+				fmt.Fprintf(&sb, "/wrap%d", s.Wrap)
 			}
 			if s.ThenHP >= 0 {
 				fmt.Fprintf(&sb, "/thenpanic:%s", hostPanics[s.ThenHP].Name)
@@ -443,7 +446,10 @@ func (m *model) simHop(o *op, caller *minst, level int) (uint64, *merr) {
 		}
 	}
 	if e != nil && !s.Catch {
-		return 0, e
+		if s.Wrap != wrapNone {
+			o.Fails = append(o.Fails, failRec{fmt.Sprintf("host-panic-wrapping-nested-failure:wrap%d(%s)", s.Wrap, classFamily(e.class)), level + 1})
+		}
+		return 0, &merr{wrapClass(s.Wrap, e.class)}
 	}
 	if caller.closed {
 		// What code of a closed instance does after its exit is not on the
@@ -705,6 +711,9 @@ func (g *gen) steps(open []int, start bool) []step {
 		s := &st[i]
 		s.ThenHP, s.Dir = -1, -1
 		s.Catch = r.Chance(2, 5)
+		if !s.Catch && r.Chance(2, 5) {
+			s.Wrap = 1 + r.Intn(3)
+		}
 		if r.Chance(1, 14) {
 			s.ThenHP = r.Intn(len(hostPanics))
 		} else if r.Chance(1, 9) {
@@ -718,6 +727,12 @@ func (g *gen) steps(open []int, start bool) []step {
 		if s.Target == slotA && g.viaOK() && r.Bool() {
 			s.Via = true
 		}
+	}
+	// Exit code 0 inside a start function only where no bare exit error can reach
+	// the instantiation (what InstantiateModule does with a bare exit 0 differs
+	// between the two start mechanisms and is not documented for the start section).
+	if l := st[d-1].Leaf; start && d >= 2 && (st[0].Catch || st[0].Wrap != wrapNone) && (l.Kind == "gexit" || l.Kind == "hexit") && r.Chance(1, 2) {
+		l.Code = 0
 	}
 	return st
 }
